@@ -8,15 +8,20 @@
     xml_roundtrip_outputside_partial
     tokenizer_inverts_serializer
     ser_idempotent_partial builder_stream_not_idemOK
+    ser_idempotent_builder_events ser_idempotent_builder ser_idempotent_parsed_text
+    mixed_stream_not_idempotent
     explicit_default_not_undeclared
     encode_roundtrip_text encode_roundtrip_attr charref_roundtrip
+    encode_every_codec
     attr_tab_lf_cr_not_recovered text_cr_not_recovered decl_encoding_echoed
 -/
 import Genshi.Lemmas.XmlRefs
 import Genshi.Lemmas.XmlFlatD
 import Genshi.Lemmas.XmlEmptyTag
 import Genshi.Lemmas.XmlEncode
+import Genshi.Lemmas.XmlEncodeB
 import Genshi.Lemmas.XmlIdem
+import Genshi.Lemmas.XmlIdemE
 import Genshi.Lemmas.XmlTxtB
 import Genshi.Lemmas.XmlMerge
 import Genshi.Model.XmlParser
@@ -34,13 +39,17 @@ theorem gen_tables_as_modelled :
     Genshi.Gen.Xml.encodeProbe = charRef (Char.ofNat 0x20AC) := by
   refine ⟨by decide, by decide, by decide⟩
 
-/-- Every codec of the property (as extracted from the running interpreter)
-    represents all of ASCII, which is what the encoding theorems assume. -/
+/-- Every codec in the translator's table (as probed in the running interpreter:
+    every scalar value goes through the codec's encoder; utf-8/16/32, ascii,
+    latin-1, iso-8859-2, iso-8859-7, iso-8859-15, cp1251, cp1252, cp437, koi8-r, mac-roman)
+    represents all of ASCII, which is what the encoding theorems assume.  The
+    check is by evaluation of the generated table (`coversAscii`), lifted by
+    `asciiRep_of_covers`; a codec added to the table is checked on the next run. -/
 theorem extracted_codecs_ascii :
     ∀ e ∈ Genshi.Gen.Xml.encodings, AsciiRep (inRanges e.2) := by
-  intro e he c hc
-  simp only [Genshi.Gen.Xml.encodings, List.mem_cons, List.mem_nil_iff, or_false] at he
-  rcases he with rfl | rfl | rfl | rfl <;> simp [inRanges] <;> omega
+  have h : Genshi.Gen.Xml.encodings.all (fun e => coversAscii e.2) = true := by decide
+  intro e he
+  exact asciiRep_of_covers e.2 (List.all_eq_true.mp h e he)
 
 /-- The preferred-prefix table a default `NamespaceFlattener()` holds (as extracted)
     is one the theorems accept. -/
@@ -214,14 +223,17 @@ example :
     in the first pass stay dropped and prefix choices are stable.
 
     Full statement (`ser_idempotent`): `ser (parse (ser s)) = ser s` for every
-    parsed document and every builder stream.  Missing here: (a) builder
-    streams, where the first pass invents declarations that the second pass
-    meets as explicit ones (outside `idemOK`; the oracle checks them on the real
-    code); (b) the step from the text to the token list is
-    `tokenizer_inverts_serializer` (the two line breaks of the prolog are white
-    space outside the root element, which a parser does not report);
-    (c) `reparseX` is compared with the real parser by the correspondence
-    stream `reparse`, not derived from a model of expat. -/
+    parsed document and every builder stream.  Builder streams (where the first
+    pass invents declarations that the second pass meets as explicit ones) are
+    `ser_idempotent_builder_events` / `ser_idempotent_builder` below; the text
+    level for this class is `ser_idempotent_parsed_text`.  Missing: (a) parsed
+    documents outside `idemOK` — a default-namespace declaration dropped in
+    favour of a prefix that is shadowed later, so that the flattener makes up a
+    declaration inside a parsed stream (≈ 0.3 % of the generated documents; the
+    oracle checks them on the real code, the driver on the model);
+    `mixed_stream_not_idempotent` shows that mixing the two shapes freely is
+    not idempotent; (b) `reparseX` is compared with the real parser by the
+    correspondence stream `reparse`, not derived from a model of expat. -/
 theorem ser_idempotent_partial (pref : List (Str × Str)) (hpref : prefOK pref = true) (s : Stream)
     (h1 : docOK (emptyTag s) = true) (h2 : idemOK pref (emptyTag s) = true) :
     ∃ xs2, reparseX PSt.init ((flatten pref (emptyTag s)).map normF) = some xs2 ∧
@@ -242,6 +254,105 @@ example : idemOK defaultPref (emptyTag
 theorem builder_stream_not_idemOK :
     idemOK defaultPref (emptyTag [.start ⟨['u'], ['a']⟩ [], .text ['t'] false, .end_ ⟨['u'], ['a']⟩]) = false := by
   decide
+
+/-- **ser_idempotent for builder streams, namespace stage.**  For every stream
+    without namespace events (`builderShaped`: what `genshi.builder` delivers —
+    the namespaces live in the qualified names and `NamespaceFlattener` makes up
+    every prefix and declaration) that is a document (`docOK`), and every legal
+    preferred-prefix table: reading the flattened output back as `XMLParser` +
+    `EmptyTagFilter` would (`reparseX`: the made-up declarations arrive as
+    explicit START_NS events, `xmlns=""` as `None`) and flattening again yields
+    the same flattened events (up to `None` / `""` as the value of `xmlns`,
+    which the serializer writes alike) — hence the same text.  The second pass
+    takes every declaration the first pass made up, in order, makes up none
+    itself, and chooses for every element and attribute name the prefix the
+    first pass chose: a prefix chosen for a name stays the answer of
+    `_find_prefix` under the fresh declarations made later on the same tag
+    (`findPrefix_push_stable`, `flatAttrs_stable`), and `_find_prefix` depends
+    only on what a reader can see of the bindings (`findPrefix_scope`), not on
+    the `auto` flags or the prefix counter, which differ between the passes. -/
+theorem ser_idempotent_builder_events (pref : List (Str × Str)) (hpref : prefOK pref = true) (s : Stream)
+    (h1 : docOK (emptyTag s) = true) (h2 : builderShaped (emptyTag s) = true) :
+    ∃ xs2, reparseX PSt.init ((flatten pref (emptyTag s)).map normF) = some xs2 ∧
+      (flatten pref xs2).map normF = (flatten pref (emptyTag s)).map normF ∧
+      serRun SerSt.init (flatten pref xs2) = serRun SerSt.init (flatten pref (emptyTag s)) := by
+  obtain ⟨xs2, r1, r2⟩ := idem_flatten_builder pref hpref _ h1 h2
+  exact ⟨xs2, r1, r2, by rw [← serRun_normF, r2, serRun_normF]⟩
+
+/-- **ser_idempotent for builder streams** (text level, every encoding): for
+    every builder stream `s` in the domain of `xml_roundtrip` (`docOK`,
+    `inputTextOKm`: adjacent and empty TEXT events allowed, the statement's
+    exclusions only), every legal preferred-prefix table and every encoding
+    that contains ASCII: `XMLSerializer` produces a text `out`; parsing its
+    encoded form (`parseText`: tokenizer, white space outside the root element
+    dropped, namespace declarations reported as START_NS / END_NS events around
+    their element, resolved names) succeeds, and serialising the parsed stream
+    gives `out` again:  `ser (parse (encode (ser s))) = ser s`.
+
+    `parseText` is the specification-side account of `XMLParser` +
+    `EmptyTagFilter`; it is compared with the real parser on every serializer
+    output by the correspondence stream `reparse` (not derived from a model of
+    expat). -/
+theorem ser_idempotent_builder (pref : List (Str × Str)) (hpref : prefOK pref = true)
+    (rep : Char → Bool) (hr : AsciiRep rep) (s : Stream)
+    (h : docOK (emptyTag s) = true) (hb : builderShaped (emptyTag s) = true)
+    (ht : inputTextOKm rep pref (emptyTag s) = true) :
+    ∃ out, serRun SerSt.init (flatten pref (emptyTag s)) = some out ∧
+      ∃ xs2, parseText (encodeText rep out) = some xs2 ∧
+        serRun SerSt.init (flatten pref xs2) = some out :=
+  idem_text_builder pref hpref rep hr _ h hb ht
+
+/-- **ser_idempotent for parser-shaped streams, text level**: the same
+    conclusion for streams in `idemOK` (what the parser delivers: namespace
+    events in front of their start tag, nothing for the flattener to make up)
+    without adjacent character data (`inputTextOK`; the parser coalesces). -/
+theorem ser_idempotent_parsed_text (pref : List (Str × Str)) (hpref : prefOK pref = true)
+    (rep : Char → Bool) (hr : AsciiRep rep) (s : Stream)
+    (h : docOK (emptyTag s) = true) (hi : idemOK pref (emptyTag s) = true)
+    (ht : inputTextOK rep pref (emptyTag s) = true) :
+    ∃ out, serRun SerSt.init (flatten pref (emptyTag s)) = some out ∧
+      ∃ xs2, parseText (encodeText rep out) = some xs2 ∧
+        serRun SerSt.init (flatten pref xs2) = some out :=
+  idem_text_parsed pref hpref rep hr _ h hi ht
+
+/-- a builder tree with two namespaces, a namespaced attribute that needs a
+    made-up prefix, an un-namespaced child (`xmlns=""`), a child back in the
+    first namespace, adjacent and empty strings is inside the hypotheses; the
+    second pass does see made-up declarations (three of them on the root) -/
+example :
+    let s : Stream :=
+      [.start ⟨['u'], ['a']⟩ [(⟨['v'], ['x']⟩, ['1']), (⟨['u'], ['y']⟩, ['2'])],
+       .text ['t'] false, .text [] false, .text ['&'] false,
+       .start ⟨[], ['d']⟩ [], .start ⟨['u'], ['e']⟩ [(⟨['v'], ['z']⟩, ['3'])], .end_ ⟨['u'], ['e']⟩, .end_ ⟨[], ['d']⟩,
+       .end_ ⟨['u'], ['a']⟩]
+    docOK (emptyTag s) = true ∧ builderShaped (emptyTag s) = true ∧
+    inputTextOKm (inRanges [(0, 127)]) defaultPref (emptyTag s) = true ∧
+    (flatten defaultPref (emptyTag s)).head? =
+      some (.start ['a'] [(['x','m','l','n','s'], ['u']), (['x','m','l','n','s',':','n','s','1'], ['v']),
+        (['x','m','l','n','s',':','n','s','2'], ['u']), (['n','s','1',':','x'], ['1']), (['n','s','2',':','y'], ['2'])]) := by
+  refine ⟨by decide, by decide, by decide, by decide⟩
+
+/-- Boundary of the two idempotence theorems, with witness: a hand-made stream
+    that *mixes* builder-style elements with explicit namespace events is inside
+    `docOK` but in neither shape class, and idempotence fails there (model and
+    real code alike): `b` gets a made-up `xmlns=""` (binding `''`), the explicit
+    START_NS('', None) in front of `c` differs from it and is written again; the
+    second pass meets both as `None` and drops the second.  The property
+    quantifies over parsed documents and streams *without* explicit namespace
+    events, so this is outside it. -/
+theorem mixed_stream_not_idempotent :
+    let s : Stream := [.start ⟨['u'], ['a']⟩ [], .start ⟨[], ['b']⟩ [], .startNs [] noneUri,
+                       .start ⟨[], ['c']⟩ [], .end_ ⟨[], ['c']⟩, .endNs [], .end_ ⟨[], ['b']⟩,
+                       .end_ ⟨['u'], ['a']⟩]
+    docOK (emptyTag s) = true ∧ builderShaped (emptyTag s) = false ∧ idemOK defaultPref (emptyTag s) = false ∧
+    serRun SerSt.init (flatten defaultPref (emptyTag s)) =
+      some ['<','a',' ','x','m','l','n','s','=','"','u','"','>','<','b',' ','x','m','l','n','s','=','"','"','>',
+            '<','c',' ','x','m','l','n','s','=','"','"','/','>','<','/','b','>','<','/','a','>'] ∧
+    (reparseX PSt.init ((flatten defaultPref (emptyTag s)).map normF)).bind
+        (fun xs2 => serRun SerSt.init (flatten defaultPref xs2)) =
+      some ['<','a',' ','x','m','l','n','s','=','"','u','"','>','<','b',' ','x','m','l','n','s','=','"','"','>',
+            '<','c','/','>','<','/','b','>','<','/','a','>'] := by
+  refine ⟨by decide, by decide, by decide, by decide, by decide⟩
 
 /-- a namespaced document with declaration, DOCTYPE and mixed content is inside
     all hypotheses, and the text it is about exists -/
@@ -304,6 +415,45 @@ theorem encode_roundtrip_attr (rep : Char → Bool) (hr : AsciiRep rep) (s : Str
     decodeAttr (encodeText rep (escapePy true s)) = some s := by
   rw [escapePy_eq_spec]
   exact decodeGo_encode_escape rep hr true true s hx (fun _ => hws)
+
+/-- **encode, for every output encoding of the table.**  For each codec the
+    translator probed (`Genshi.Gen.Xml.encodings`: the set of scalar values the
+    codec's own encoder accepts) and every string of XML characters, what
+    `encode` makes of escaped character data with `xmlcharrefreplace`
+      * lies inside the codec's repertoire (the codec cannot refuse it),
+      * has every character the codec has as itself and every character it
+        lacks as `&#N;` with `N` the scalar value in decimal,
+      * and is read back by an XML reader as the original string;
+    the same for attribute values outside TAB/LF/CR. -/
+theorem encode_every_codec :
+    ∀ e ∈ Genshi.Gen.Xml.encodings, ∀ s : Str, s.all isXmlChar = true →
+      (encodeText (inRanges e.2) (escapePy false s)).all (inRanges e.2) = true ∧
+      (∀ c : Char, inRanges e.2 c = false →
+        encodeText (inRanges e.2) [c] = '&' :: '#' :: dec c.toNat ++ [';']) ∧
+      (∀ c : Char, inRanges e.2 c = true → encodeText (inRanges e.2) [c] = [c]) ∧
+      decodeText (encodeText (inRanges e.2) (escapePy false s)) = some s ∧
+      ((∀ c ∈ s, c ≠ '\t' ∧ c ≠ '\n' ∧ c ≠ '\r') →
+        decodeAttr (encodeText (inRanges e.2) (escapePy true s)) = some s) := by
+  intro e he s hx
+  have hr := extracted_codecs_ascii e he
+  refine ⟨encodeText_all_rep _ hr _, fun c hc => encodeText_unrep _ c hc,
+    fun c hc => by simp [encodeText, hc], encode_roundtrip_text _ hr s hx,
+    fun hws => encode_roundtrip_attr _ hr s hx hws⟩
+
+/-- the euro sign under three codecs of the table: latin-1 lacks it, cp1252 and
+    iso-8859-15 have it; Cyrillic under koi8-r -/
+example :
+    (Genshi.Gen.Xml.encodings.lookup ['l','a','t','i','n','-','1']).map (fun r => encodeText (inRanges r) [Char.ofNat 0x20AC]) =
+      some ['&','#','8','3','6','4',';'] ∧
+    (Genshi.Gen.Xml.encodings.lookup ['c','p','1','2','5','2']).map (fun r => encodeText (inRanges r) [Char.ofNat 0x20AC]) =
+      some [Char.ofNat 0x20AC] ∧
+    (Genshi.Gen.Xml.encodings.lookup ['i','s','o','-','8','8','5','9','-','1','5']).map
+        (fun r => encodeText (inRanges r) [Char.ofNat 0x20AC, Char.ofNat 0xA4]) =
+      some [Char.ofNat 0x20AC, '&','#','1','6','4',';'] ∧
+    (Genshi.Gen.Xml.encodings.lookup ['k','o','i','8','-','r']).map
+        (fun r => encodeText (inRanges r) [Char.ofNat 0x416, Char.ofNat 0xE9]) =
+      some [Char.ofNat 0x416, '&','#','2','3','3',';'] := by
+  refine ⟨by decide, by decide, by decide, by decide⟩
 
 /-- A character reference is read back as the same scalar, in both modes. -/
 theorem charref_roundtrip (attr : Bool) (c : Char) (hx : isXmlChar c = true) (rest : Str) :
